@@ -36,6 +36,17 @@ func nlGen(g *G, tier string) []M {
 			op["alloc"] = true
 		}
 	}
+	// a quarter of the matching operations with a probe that is an element of the list itself
+	for _, op := range ops {
+		if asStr(op["op"]) != "match" || !g2.Chance(0.25) {
+			continue
+		}
+		if ns := asList(op["a"].(M)["nodes"]); len(ns) > 0 {
+			k := g2.Int(len(ns))
+			op["n"] = Normalize(ns[k])
+			op["member"] = float64(k)
+		}
+	}
 	// a fifth of the merging operations on operands some of whose absent collections are written
 	// out as empty ones (allocated, length 0): to every operation an empty collection is no value
 	for _, op := range ops {
